@@ -2997,7 +2997,8 @@ def distributed_shampoo(
       if num_statistics == 0:
         preconditioners_for_states.append([])
         metrics_for_states.append(
-            init_training_metrics(0, generate_training_metrics))
+            init_training_metrics(0, generate_training_metrics,
+                                  generate_fd_metrics))
       else:
         preconditioners_for_state = new_preconditioners_flat[idx:idx +
                                                              num_statistics]
@@ -3255,7 +3256,8 @@ def distributed_shampoo(
       if num_statistics == 0:
         preconditioners_for_states.append([])
         metrics_for_states.append(
-            init_training_metrics(0, generate_training_metrics))
+            init_training_metrics(0, generate_training_metrics,
+                                  generate_fd_metrics))
       else:
         quantized_preconditioners_for_state = new_quantized_preconditioners_flat[
             idx:idx + num_statistics]
@@ -3437,7 +3439,8 @@ def distributed_shampoo(
       if num_statistics == 0:
         preconditioners_for_states.append([])
         metrics_for_states.append(
-            init_training_metrics(0, generate_training_metrics))
+            init_training_metrics(0, generate_training_metrics,
+                                  generate_fd_metrics))
       else:
         preconditioners_for_state = new_preconditioners_flat[idx:idx +
                                                              num_statistics]
